@@ -825,6 +825,29 @@ func checkC14(c *Check, p *Program) {
 			sentVal = sts[0].Val
 		}
 	}
+	// the sending function transmits what it is given: every path on which the message is not nil passes the
+	// transmission once, and the transmitted payload is the parameter
+	if a.sendFn != nil && a.sendSite.Call != nil {
+		var msgP *ssa.Parameter
+		for _, prm := range a.sendFn.Params {
+			if _, isI := prm.Type().Underlying().(*types.Interface); isI {
+				msgP = prm
+			}
+		}
+		assume := map[ssa.Value]bool{}
+		if msgP != nil {
+			instrsOf(a.sendFn, func(in ssa.Instruction) {
+				if bo, ok := in.(*ssa.BinOp); ok && (bo.Op == token.EQL || bo.Op == token.NEQ) {
+					if (unspill(bo.X) == ssa.Value(msgP) && isNilConst(bo.Y)) || (unspill(bo.Y) == ssa.Value(msgP) && isNilConst(bo.X)) {
+						assume[bo] = bo.Op == token.NEQ
+					}
+				}
+			})
+		}
+		mn, mx := pathCountAssuming(a.sendFn.Blocks[0], func(in ssa.Instruction) bool { return in == ssa.Instruction(a.sendSite.Call) }, nil, assume)
+		c.Decide(mn == 1 && mx == 1, "C14.Q2", sn+" transmits every message it is given", p.InstrPos(a.sendSite.Call), "one transmission on every path with a non-nil message", fmt.Sprintf("paths with a non-nil message pass the transmission %d..%d times: a message is swallowed (Send reports an error for every valid message) or sent twice", mn, mx))
+		c.Decide(sentVal != nil && msgP != nil && unspill(sentVal) == ssa.Value(msgP), "C14.Q2", sn+" transmits the message it is given", p.InstrPos(a.sendSite.Call), "RoutingInd.Payload is the parameter", "the transmitted payload is not the message handed to Send")
+	}
 	for _, pb := range pushes {
 		facts := factsAt(pb.Block())
 		okErr := pb.Parent() == a.sendFn && anyFact(facts, func(f Cmp) bool {
@@ -962,6 +985,12 @@ func checkC14(c *Check, p *Program) {
 			c.Decide(min == 1 && max == 1, "C14.Q4", ln+" one Remove per collected message", p.InstrPos(mk), "each iteration removes exactly one element", fmt.Sprintf("an iteration of the collection loop removes %d..%d elements from the history: resent messages stay retained (and are resent again later) or more than k are consumed", min, max))
 			min, max = iterCount(lp, isStore)
 			c.Decide(min == 1 && max == 1, "C14.Q4", ln+" one slot filled per iteration", p.InstrPos(mk), "each iteration stores one message", fmt.Sprintf("an iteration fills %d..%d slots", min, max))
+			// the slots are visited from the last to the first, each once: the k-th message taken from the back of the
+			// history is the k-th last sent.  Index, bound and step are affine in the induction variable i and the
+			// slice length L with unit step; such a loop is right for every L iff it is right for L = 0..6, which is
+			// evaluated here on the affine forms (nothing of the program runs).
+			okOrder, whyOrder := affineLoopVisits(lp, mk, isStore)
+			c.Decide(okOrder, "C14.Q4", ln+" fills the slots from the last to the first, each once", p.InstrPos(mk), "i runs over len-1 .. 0 (or the mirrored form) and the slot is the mirror of the removal order", "the collection loop does not fill every slot in reverse removal order: "+whyOrder+" - lost messages are resent in the wrong order, some slots stay nil or the loop does not end")
 			for b := range lp.Body {
 				for _, in := range b.Instrs {
 					if call, ok := isListCall(in, a, "Remove"); ok {
@@ -1342,4 +1371,166 @@ func checkRouterDefaults(c *Check, p *Program, rule string, a *routerAnchors) {
 		})
 	}
 	c.Decide(writers == 0 && defVal >= 1, rule, "DefaultRouterConfig.RetainCount is a positive constant nobody writes", p.Pos(def.Pos()), fmt.Sprintf("%d", defVal), "default retain count is not a fixed positive value")
+}
+
+// affineLoopVisits: the loop stores into mk[idx] with idx, the continuation
+// test and the induction step affine in (i, L = len(mk)); for L = 0..6 the
+// sequence of slots visited is L-1, L-2, ..., 0.
+func affineLoopVisits(lp *loopInfo, mk *ssa.MakeSlice, isStore func(ssa.Instruction) bool) (bool, string) {
+	var phi *ssa.Phi
+	type aff struct{ i, l, k int64 }
+	var lf func(v ssa.Value, d int) (aff, bool)
+	lf = func(v ssa.Value, d int) (aff, bool) {
+		if d > 8 {
+			return aff{}, false
+		}
+		if phi != nil && v == ssa.Value(phi) {
+			return aff{1, 0, 0}, true
+		}
+		switch x := v.(type) {
+		case *ssa.Const:
+			if k, ok := constInt(x); ok {
+				return aff{0, 0, k}, true
+			}
+		case *ssa.Convert:
+			return lf(x.X, d+1)
+		case *ssa.ChangeType:
+			return lf(x.X, d+1)
+		case *ssa.Call:
+			if builtinName(x) == "len" && (x.Common().Args[0] == ssa.Value(mk) || resolveCell(x.Common().Args[0]) == ssa.Value(mk)) {
+				return aff{0, 1, 0}, true
+			}
+		case *ssa.BinOp:
+			a, oka := lf(x.X, d+1)
+			b, okb := lf(x.Y, d+1)
+			if oka && okb {
+				switch x.Op {
+				case token.ADD:
+					return aff{a.i + b.i, a.l + b.l, a.k + b.k}, true
+				case token.SUB:
+					return aff{a.i - b.i, a.l - b.l, a.k - b.k}, true
+				}
+			}
+		}
+		if stripAllConv(v) == stripAllConv(mk.Len) {
+			return aff{0, 1, 0}, true
+		}
+		return aff{}, false
+	}
+	// induction variable: a header phi whose latch edge is phi +- 1
+	var init aff
+	step := int64(0)
+	for _, in := range lp.Header.Instrs {
+		ph, ok := in.(*ssa.Phi)
+		if !ok {
+			continue
+		}
+		for ei, e := range ph.Edges {
+			if !lp.Body[lp.Header.Preds[ei]] {
+				continue
+			}
+			phi = ph
+			if a, ok := lf(e, 0); ok && a.i == 1 && a.l == 0 && (a.k == 1 || a.k == -1) {
+				step = a.k
+			}
+		}
+		if step != 0 {
+			okI := false
+			for ei, e := range ph.Edges {
+				if !lp.Body[lp.Header.Preds[ei]] {
+					phi = nil // the initial value does not mention i
+					init, okI = lf(e, 0)
+					phi = ph
+				}
+			}
+			if okI {
+				break
+			}
+			step = 0
+		}
+		phi = nil
+	}
+	if phi == nil || step == 0 {
+		return false, "no induction variable with unit step found"
+	}
+	// continuation test
+	var cx, cy aff
+	var cop token.Token
+	found := false
+	for b := range lp.Body {
+		iff := ifOf(b)
+		if iff == nil || len(b.Succs) != 2 {
+			continue
+		}
+		in0, in1 := lp.Body[b.Succs[0]], lp.Body[b.Succs[1]]
+		if in0 == in1 {
+			continue
+		}
+		cm, ok := cmpOf(iff.Cond, in0)
+		if !ok {
+			continue
+		}
+		x, okx := lf(cm.X, 0)
+		y, oky := lf(cm.Y, 0)
+		if !okx || !oky {
+			return false, "the loop test is not affine in the index and the slice length"
+		}
+		cx, cy, cop, found = x, y, cm.Op, true
+	}
+	if !found {
+		return false, "no loop test found"
+	}
+	// slot index
+	var idx aff
+	okIdx := false
+	for b := range lp.Body {
+		for _, in := range b.Instrs {
+			if isStore(in) {
+				ia := in.(*ssa.Store).Addr.(*ssa.IndexAddr)
+				idx, okIdx = lf(ia.Index, 0)
+			}
+		}
+	}
+	if !okIdx {
+		return false, "the slot index is not affine in the index and the slice length"
+	}
+	ev := func(a aff, i, l int64) int64 { return a.i*i + a.l*l + a.k }
+	holds := func(i, l int64) bool {
+		x, y := ev(cx, i, l), ev(cy, i, l)
+		switch cop {
+		case token.LSS:
+			return x < y
+		case token.LEQ:
+			return x <= y
+		case token.GTR:
+			return x > y
+		case token.GEQ:
+			return x >= y
+		case token.EQL:
+			return x == y
+		case token.NEQ:
+			return x != y
+		}
+		return false
+	}
+	for l := int64(0); l <= 6; l++ {
+		i := ev(init, 0, l)
+		var visited []int64
+		for n := int64(0); holds(i, l); n++ {
+			if n > l+1 {
+				return false, fmt.Sprintf("for a slice of %d the loop does not end after %d rounds", l, l)
+			}
+			visited = append(visited, ev(idx, i, l))
+			i += step
+		}
+		if int64(len(visited)) != l {
+			return false, fmt.Sprintf("for a slice of %d the loop fills %d slots", l, len(visited))
+		}
+		for k, v := range visited {
+			if v != l-1-int64(k) {
+				return false, fmt.Sprintf("for a slice of %d round %d fills slot %d instead of %d", l, k, v, l-1-int64(k))
+			}
+		}
+	}
+	return true, ""
 }
